@@ -265,6 +265,7 @@ cleanup:
 
 int KSI_TLV_setRawValue(KSI_TLV *tlv, const void *data, size_t data_len) {
 	int res = KSI_UNKNOWN_ERROR;
+	unsigned char *newBuf = NULL;
 
 	if (tlv == NULL || (data == NULL && data_len != 0)) {
 		res = KSI_INVALID_ARGUMENT;
@@ -278,21 +279,25 @@ int KSI_TLV_setRawValue(KSI_TLV *tlv, const void *data, size_t data_len) {
 		goto cleanup;
 	}
 
-	if (tlv->buffer == NULL && data != NULL && data_len != 0) {
+	/* The TLV needs a buffer of its own that can hold the value. A parsed TLV owns a buffer of the size it was
+	 * parsed from; the object is left untouched until nothing can fail any more. */
+	if (data_len != 0 && tlv->buffer == NULL) {
 		res = createOwnBuffer(tlv, 0);
 		if (res != KSI_OK) {
 			KSI_pushError(tlv->ctx, res, NULL);
 			goto cleanup;
 		}
+	} else if (data_len != 0 && tlv->buffer_size < data_len) {
+		newBuf = KSI_malloc(KSI_BUFFER_SIZE);
+		if (newBuf == NULL) {
+			KSI_pushError(tlv->ctx, res = KSI_OUT_OF_MEMORY, NULL);
+			goto cleanup;
+		}
 	}
 
-	tlv->datap = tlv->buffer;
-	tlv->datap_len = data_len;
-
-	/* Double check the boundaries. */
-	if (tlv->buffer_size < data_len) {
-		KSI_pushError(tlv->ctx, res = KSI_BUFFER_OVERFLOW, NULL);
-		goto cleanup;
+	if (data_len > 0) {
+		/* The data may be a part of the present value. */
+		memmove(newBuf != NULL ? newBuf : tlv->buffer, data, data_len);
 	}
 
 	if (tlv->nested != NULL) {
@@ -300,13 +305,21 @@ int KSI_TLV_setRawValue(KSI_TLV *tlv, const void *data, size_t data_len) {
 		tlv->nested = NULL;
 	}
 
-	if (data_len > 0) {
-		memcpy(tlv->datap, data, data_len);
+	if (newBuf != NULL) {
+		KSI_free(tlv->buffer);
+		tlv->buffer = newBuf;
+		tlv->buffer_size = KSI_BUFFER_SIZE;
+		newBuf = NULL;
 	}
+
+	tlv->datap = tlv->buffer;
+	tlv->datap_len = data_len;
 
 	res = KSI_OK;
 
 cleanup:
+
+	KSI_free(newBuf);
 
 	return res;
 }
